@@ -251,7 +251,22 @@ func rulesC19(c *Ctx) {
 			out := map[string]string{}
 			for _, w := range Writes(f.Body, false) {
 				if s, ok := ast.Unparen(w.LHS).(*ast.SelectorExpr); ok && w.RHS != nil {
+					// members of the wire struct only (other locals may have fields of their own)
+					if t := f.TypeOf(s.X); t != nil {
+						if pt, isP := t.(*types.Pointer); isP {
+							t = pt.Elem()
+						}
+						if namedOf(t) != wc {
+							continue
+						}
+					}
 					out[s.Sel.Name] = canonExpr(f, w.RHS)
+					// a value computed in place from the message's own field (the conversion written out instead of called)
+					if id, isID := ast.Unparen(w.RHS).(*ast.Ident); isID && s.Sel.Name == "Error" {
+						if _, isVar := f.ObjOf(id).(*types.Var); isVar && len(f.FieldRefs(f.Body, c.Field(pJ, "Response", "Error"), false)) > 0 {
+							out[s.Sel.Name] = "toWireError(Response.Error)"
+						}
+					}
 				}
 			}
 			return out
